@@ -50,9 +50,10 @@ def obligations(tier):
         Obl("select_timeout", "wake.c", grid=[{"K": 3}] if tier == "quick" else [{"K": 3}, {"K": 5}],
             defines=dict(common["defines"], MODE=1, NINJ=1),
             unwind=lambda p: {"send_main~while (!flagexitasap": p["K"] + 2}, unwind_default=20, timeout=900,
-            assumes=["symbolic non-decreasing clock (steps <= 100000 s), symbolic due times from pass/cleanup within +-200000 s of now"],
+            assumes=["symbolic non-decreasing clock (steps <= 100000 s), symbolic due times from pass/cleanup within +-200000 s of now; "
+                     "flagexitasap symbolic with a delivery outstanding (shutdown drain)"],
             claim="at every select(): timeout 0 iff a scan is in progress or something is due; otherwise positive and "
                   "<= earliest-due - now + SLEEP_FUZZ",
-            expect_witnesses=["polls_when_due", "sleeps_until_due"],
+            expect_witnesses=["polls_when_due", "sleeps_until_due", "sleeps_while_draining"],
             **{k: v for k, v in common.items() if k != "defines"}),
     ]
